@@ -36,6 +36,15 @@ Proof.
   intros ->. replace (0 + - g s) with (- g s) in Hb by ring. rewrite Rabs_Ropp in Hb. lra.
 Qed.
 
+(* the open set on which everything happens: inside the interval and away from the zeros of the weight *)
+Definition Uset (lo hi : R) (g : R -> R) (x : R) : Prop := lo < x < hi /\ g x <> 0.
+Lemma Uset_open lo hi (g g' : R -> R) : (forall x, lo < x < hi -> is_derive g x (g' x)) ->
+  forall x, Uset lo hi g x -> locally x (Uset lo hi g).
+Proof.
+  intros Hg x [Hx Hz]. apply filter_and; [exact (locally_itv lo hi x Hx)|].
+  exact (locally_nz g x _ (Hg x Hx) Hz).
+Qed.
+
 (* a chain K 0, K 1, ..., K d of functions on an open set U, each the derivative of the previous one:
    K r is the r-th derivative of K 0 *)
 Lemma chain_is_derive_n (U : R -> Prop) (K : nat -> R -> R) (d : nat) :
@@ -98,13 +107,8 @@ Variables n W : nat -> R -> R.
 Hypothesis Hn : forall r s, (r < 3)%nat -> a < s < b -> is_derive (n r) s (n (S r) s).
 Hypothesis HW : forall r s, (r < 3)%nat -> a < s < b -> is_derive (W r) s (W (S r) s).
 
-Let U (s : R) : Prop := a < s < b /\ W 0%nat s <> 0.
-
-Lemma curve_U_open s : U s -> locally s U.
-Proof.
-  intros [Hs Hz]. apply filter_and; [exact (locally_itv a b s Hs)|].
-  exact (locally_nz (W 0%nat) s _ (HW 0%nat s ltac:(lia) Hs) Hz).
-Qed.
+Lemma curve_U_open s : Uset a b (W 0%nat) s -> locally s (Uset a b (W 0%nat)).
+Proof. exact (Uset_open a b (W 0%nat) (W 1%nat) (fun x Hx => HW 0%nat x ltac:(lia) Hx) s). Qed.
 
 (* the value the API returns for order d, as a function of the parameter *)
 Definition curve_kernel (d : nat) (s : R) : R := Qc (fun r => n r s) (fun r => W r s) d.
@@ -121,7 +125,7 @@ Theorem curve_kernels_are_derivatives d t : (d <= 3)%nat -> a < t < b -> W 0%nat
   is_derive_n (fun s => n 0%nat s / W 0%nat s) d t (Qc (fun r => n r t) (fun r => W r t) d).
 Proof.
   intros Hd Ht Hz.
-  exact (chain_is_derive_n U curve_kernel 3 curve_U_open
+  exact (chain_is_derive_n (Uset a b (W 0%nat)) curve_kernel 3 curve_U_open
            (fun r s Hr Hs => curve_kernel_step r s Hr (proj1 Hs) (proj2 Hs)) d Hd t (conj Ht Hz)).
 Qed.
 
@@ -226,3 +230,457 @@ Proof.
   destruct i as [|[|[|i]]]; destruct j as [|[|[|j]]]; try lia; surf_step t Wnz.
 Qed.
 End SurfChain.
+
+Section Surface.
+Variables a1 b1 a2 b2 : R.
+(* n i j, W i j : the (i,j) partial derivative functions of numerator component and weight on the open rectangle *)
+Variables n W : nat -> nat -> R -> R -> R.
+Local Notation inR u v := (a1 < u < b1 /\ a2 < v < b2).
+Hypothesis Hnu : forall i j u v, (i + j < 3)%nat -> inR u v -> is_derive (fun x => n i j x v) u (n (S i) j u v).
+Hypothesis Hnv : forall i j u v, (i + j < 3)%nat -> inR u v -> is_derive (fun y => n i j u y) v (n i (S j) u v).
+Hypothesis HWu : forall i j u v, (i + j < 3)%nat -> inR u v -> is_derive (fun x => W i j x v) u (W (S i) j u v).
+Hypothesis HWv : forall i j u v, (i + j < 3)%nat -> inR u v -> is_derive (fun y => W i j u y) v (W i (S j) u v).
+
+(* the value the API returns for d = (i,j) at (u,v) *)
+Definition surf_kernel (i j : nat) (u v : R) : R := Qs (fun a b => n a b u v) (fun a b => W a b u v) i j.
+
+Theorem surf_kernel_step_u i j u v : (i + j < 3)%nat -> inR u v -> W 0%nat 0%nat u v <> 0 ->
+  is_derive (fun x => surf_kernel i j x v) u (surf_kernel (S i) j u v).
+Proof.
+  intros Hij HR Hz.
+  exact (Ks_chain_u (fun a b x => n a b x v) (fun a b x => W a b x v) u Hz
+           (fun a b Hab => Hnu a b u v Hab HR) (fun a b Hab => HWu a b u v Hab HR) i j Hij).
+Qed.
+
+Theorem surf_kernel_step_v i j u v : (i + j < 3)%nat -> inR u v -> W 0%nat 0%nat u v <> 0 ->
+  is_derive (fun y => surf_kernel i j u y) v (surf_kernel i (S j) u v).
+Proof.
+  intros Hij HR Hz.
+  exact (Ks_chain_v (fun a b y => n a b u y) (fun a b y => W a b u y) v Hz
+           (fun a b Hab => Hnv a b u v Hab HR) (fun a b Hab => HWv a b u v Hab HR) i j Hij).
+Qed.
+
+Local Notation Uu v := (Uset a1 b1 (fun x => W 0%nat 0%nat x v)).
+Local Notation Uv u := (Uset a2 b2 (fun y => W 0%nat 0%nat u y)).
+
+Lemma Uu_open v : a2 < v < b2 -> forall x, Uu v x -> locally x (Uu v).
+Proof.
+  intros Hv. exact (Uset_open a1 b1 (fun x => W 0%nat 0%nat x v) (fun x => W 1%nat 0%nat x v)
+                      (fun x Hx => HWu 0%nat 0%nat x v ltac:(lia) (conj Hx Hv))).
+Qed.
+Lemma Uv_open u : a1 < u < b1 -> forall y, Uv u y -> locally y (Uv u).
+Proof.
+  intros Hu. exact (Uset_open a2 b2 (fun y => W 0%nat 0%nat u y) (fun y => W 0%nat 1%nat u y)
+                      (fun y Hy => HWv 0%nat 0%nat u y ltac:(lia) (conj Hu Hy))).
+Qed.
+
+(* pure partials *)
+Lemma surf_pure_v j u v : (j <= 3)%nat -> inR u v -> W 0%nat 0%nat u v <> 0 ->
+  is_derive_n (fun y => n 0%nat 0%nat u y / W 0%nat 0%nat u y) j v (surf_kernel 0 j u v).
+Proof.
+  intros Hj [Hu Hv] Hz.
+  exact (chain_is_derive_n (Uv u) (fun r y => surf_kernel 0 r u y) 3 (Uv_open u Hu)
+           (fun r y Hr Hy => surf_kernel_step_v 0 r u y Hr (conj Hu (proj1 Hy)) (proj2 Hy)) j Hj v (conj Hv Hz)).
+Qed.
+Lemma surf_pure_u i u v : (i <= 3)%nat -> inR u v -> W 0%nat 0%nat u v <> 0 ->
+  is_derive_n (fun x => n 0%nat 0%nat x v / W 0%nat 0%nat x v) i u (surf_kernel i 0 u v).
+Proof.
+  intros Hi [Hu Hv] Hz.
+  exact (chain_is_derive_n (Uu v) (fun r x => surf_kernel r 0 x v) 3 (Uu_open v Hv)
+           (fun r x Hr Hx => surf_kernel_step_u r 0 x v ltac:(lia) (conj (proj1 Hx) Hv) (proj2 Hx)) i Hi u (conj Hu Hz)).
+Qed.
+
+(* MAIN (surfaces): all ten multi-indices; the i-th partial in u of the j-th partial in v *)
+Theorem surface_kernels_are_partials i j u v : (i + j <= 3)%nat -> inR u v -> W 0%nat 0%nat u v <> 0 ->
+  is_derive_n (fun x => Derive_n (fun y => n 0%nat 0%nat x y / W 0%nat 0%nat x y) j v) i u
+    (Qs (fun a b => n a b u v) (fun a b => W a b u v) i j).
+Proof.
+  intros Hij [Hu Hv] Hz.
+  apply (is_derive_n_ext_loc (fun x => surf_kernel 0 j x v)).
+  - generalize (Uu_open v Hv u (conj Hu Hz)). apply filter_imp. intros x [Hx Hxz]. symmetry.
+    apply is_derive_n_unique. apply surf_pure_v; [lia|exact (conj Hx Hv)|exact Hxz].
+  - exact (chain_is_derive_n (Uu v) (fun r x => surf_kernel r j x v) i (Uu_open v Hv)
+           (fun r x Hr Hx => surf_kernel_step_u r j x v ltac:(lia) (conj (proj1 Hx) Hv) (proj2 Hx)) i (le_n i) u (conj Hu Hz)).
+Qed.
+
+(* the other nesting: the j-th partial in v of the i-th partial in u *)
+Theorem surface_kernels_are_partials_vu i j u v : (i + j <= 3)%nat -> inR u v -> W 0%nat 0%nat u v <> 0 ->
+  is_derive_n (fun y => Derive_n (fun x => n 0%nat 0%nat x y / W 0%nat 0%nat x y) i u) j v
+    (Qs (fun a b => n a b u v) (fun a b => W a b u v) i j).
+Proof.
+  intros Hij [Hu Hv] Hz.
+  apply (is_derive_n_ext_loc (fun y => surf_kernel i 0 u y)).
+  - generalize (Uv_open u Hu v (conj Hv Hz)). apply filter_imp. intros y [Hy Hyz]. symmetry.
+    apply is_derive_n_unique. apply surf_pure_u; [lia|exact (conj Hu Hy)|exact Hyz].
+  - exact (chain_is_derive_n (Uv u) (fun r y => surf_kernel i r u y) j (Uv_open u Hu)
+           (fun r y Hr Hy => surf_kernel_step_v i r u y ltac:(lia) (conj Hu (proj1 Hy)) (proj2 Hy)) j (le_n j) v (conj Hv Hz)).
+Qed.
+
+(* the kernels by name.  First order: the generic quotient rule in u and in v *)
+Corollary surf_d10_is_partial_u u v : inR u v -> W 0%nat 0%nat u v <> 0 ->
+  is_derive (fun x => n 0%nat 0%nat x v / W 0%nat 0%nat x v) u
+    (@quot1 R NumR (n 1%nat 0%nat u v) (n 0%nat 0%nat u v) (W 1%nat 0%nat u v) (W 0%nat 0%nat u v)).
+Proof. intros HR Hz. exact (surface_kernels_are_partials 1 0 u v ltac:(lia) HR Hz). Qed.
+Corollary surf_d01_is_partial_v u v : inR u v -> W 0%nat 0%nat u v <> 0 ->
+  is_derive (fun y => n 0%nat 0%nat u y / W 0%nat 0%nat u y) v
+    (@quot1 R NumR (n 0%nat 1%nat u v) (n 0%nat 0%nat u v) (W 0%nat 1%nat u v) (W 0%nat 0%nat u v)).
+Proof. intros HR Hz. exact (surface_kernels_are_partials_vu 0 1 u v ltac:(lia) HR Hz). Qed.
+
+(* d = (1,1): two nested is_derive, in both orders *)
+Corollary surf_d11_is_mixed_partial u v : inR u v -> W 0%nat 0%nat u v <> 0 ->
+  is_derive (fun x => Derive (fun y => n 0%nat 0%nat x y / W 0%nat 0%nat x y) v) u
+    (@surf_d11 R NumR (fun a b => n a b u v) (fun a b => W a b u v)).
+Proof. intros HR Hz. exact (surface_kernels_are_partials 1 1 u v ltac:(lia) HR Hz). Qed.
+Corollary surf_d11_is_mixed_partial_vu u v : inR u v -> W 0%nat 0%nat u v <> 0 ->
+  is_derive (fun y => Derive (fun x => n 0%nat 0%nat x y / W 0%nat 0%nat x y) u) v
+    (@surf_d11 R NumR (fun a b => n a b u v) (fun a b => W a b u v)).
+Proof. intros HR Hz. exact (surface_kernels_are_partials_vu 1 1 u v ltac:(lia) HR Hz). Qed.
+
+(* second and third order, pure and mixed *)
+Corollary surf_d20_is_partial u v : inR u v -> W 0%nat 0%nat u v <> 0 ->
+  is_derive_n (fun x => n 0%nat 0%nat x v / W 0%nat 0%nat x v) 2 u
+    (@surf_d20 R NumR (fun a b => n a b u v) (fun a b => W a b u v)).
+Proof. intros HR Hz. exact (surface_kernels_are_partials 2 0 u v ltac:(lia) HR Hz). Qed.
+Corollary surf_d02_is_partial u v : inR u v -> W 0%nat 0%nat u v <> 0 ->
+  is_derive_n (fun y => n 0%nat 0%nat u y / W 0%nat 0%nat u y) 2 v
+    (@surf_d02 R NumR (fun a b => n a b u v) (fun a b => W a b u v)).
+Proof. intros HR Hz. exact (surface_kernels_are_partials_vu 0 2 u v ltac:(lia) HR Hz). Qed.
+Corollary surf_d30_is_partial u v : inR u v -> W 0%nat 0%nat u v <> 0 ->
+  is_derive_n (fun x => n 0%nat 0%nat x v / W 0%nat 0%nat x v) 3 u
+    (@surf_d30 R NumR (fun a b => n a b u v) (fun a b => W a b u v)).
+Proof. intros HR Hz. exact (surface_kernels_are_partials 3 0 u v ltac:(lia) HR Hz). Qed.
+Corollary surf_d03_is_partial u v : inR u v -> W 0%nat 0%nat u v <> 0 ->
+  is_derive_n (fun y => n 0%nat 0%nat u y / W 0%nat 0%nat u y) 3 v
+    (@surf_d03 R NumR (fun a b => n a b u v) (fun a b => W a b u v)).
+Proof. intros HR Hz. exact (surface_kernels_are_partials_vu 0 3 u v ltac:(lia) HR Hz). Qed.
+Corollary surf_d21_is_partial u v : inR u v -> W 0%nat 0%nat u v <> 0 ->
+  is_derive_n (fun x => Derive (fun y => n 0%nat 0%nat x y / W 0%nat 0%nat x y) v) 2 u
+    (@surf_d21 R NumR (fun a b => n a b u v) (fun a b => W a b u v)).
+Proof. intros HR Hz. exact (surface_kernels_are_partials 2 1 u v ltac:(lia) HR Hz). Qed.
+Corollary surf_d12_is_partial u v : inR u v -> W 0%nat 0%nat u v <> 0 ->
+  is_derive (fun x => Derive_n (fun y => n 0%nat 0%nat x y / W 0%nat 0%nat x y) 2 v) u
+    (@surf_d12 R NumR (fun a b => n a b u v) (fun a b => W a b u v)).
+Proof. intros HR Hz. exact (surface_kernels_are_partials 1 2 u v ltac:(lia) HR Hz). Qed.
+End Surface.
+
+(* ------------------------------------------------------------------------------------------------ *)
+(* 3. tangent and normal                                                                            *)
+(* ------------------------------------------------------------------------------------------------ *)
+(* splineobject.py, SplineObject.tangent (single point):
+       v = self.derivative( *params, d=derivative, above=above, tensor=tensor)     [blank after "(" added: Coq comment]
+       speed = np.linalg.norm(v)
+       return v / speed
+   surface.py, Surface.normal (dimension 3, single point):
+       (du, dv) = self.tangent(u, v, above=above, tensor=tensor)
+       normals = np.cross(du,dv)
+       return normals / np.linalg.norm(normals)                                                      *)
+
+Definition vec3 : Type := (R * R * R)%type.
+Definition dot3 (a b : vec3) : R :=
+  let '(a0, a1, a2) := a in let '(b0, b1, b2) := b in a0 * b0 + a1 * b1 + a2 * b2.
+Definition cross3 (a b : vec3) : vec3 :=
+  let '(a0, a1, a2) := a in let '(b0, b1, b2) := b in
+  (a1 * b2 - a2 * b1, a2 * b0 - a0 * b2, a0 * b1 - a1 * b0).
+Definition scal3 (c : R) (a : vec3) : vec3 := let '(a0, a1, a2) := a in (c * a0, c * a1, c * a2).
+Definition norm3 (a : vec3) : R := sqrt (dot3 a a).
+(* v / np.linalg.norm(v) *)
+Definition normalize3 (a : vec3) : vec3 := let '(a0, a1, a2) := a in (a0 / norm3 a, a1 / norm3 a, a2 / norm3 a).
+(* Surface.normal from the two velocity vectors (self.tangent returns the normalised ones) *)
+Definition normal3 (du dv : vec3) : vec3 := normalize3 (cross3 (normalize3 du) (normalize3 dv)).
+
+Lemma norm3_pos a : 0 < dot3 a a -> 0 < norm3 a.
+Proof. intros H. unfold norm3. now apply sqrt_lt_R0. Qed.
+Lemma norm3_sq a : 0 < dot3 a a -> norm3 a * norm3 a = dot3 a a.
+Proof. intros H. unfold norm3. apply sqrt_sqrt. lra. Qed.
+
+(* the tangent is a unit vector, a positive multiple of the velocity, hence parallel to it *)
+Theorem normalize3_spec (v : vec3) : 0 < dot3 v v ->
+  dot3 (normalize3 v) (normalize3 v) = 1 /\
+  normalize3 v = scal3 (/ norm3 v) v /\ 0 < / norm3 v /\
+  cross3 v (normalize3 v) = (0, 0, 0).
+Proof.
+  intros H. pose proof (norm3_pos v H) as Hp. pose proof (norm3_sq v H) as Hs.
+  destruct v as [[x y] z]. set (N := norm3 (x, y, z)) in *.
+  unfold normalize3. fold N. cbn [dot3 cross3 scal3] in *.
+  repeat split.
+  - replace (x / N * (x / N) + y / N * (y / N) + z / N * (z / N)) with ((x * x + y * y + z * z) / (N * N)) by (field; lra).
+    rewrite Hs. field. lra.
+  - f_equal; [f_equal|]; field; lra.
+  - apply Rinv_0_lt_compat; exact Hp.
+  - f_equal; [f_equal|]; field; lra.
+Qed.
+
+Lemma normalize3_scal c v : 0 < c -> 0 < dot3 v v -> normalize3 (scal3 c v) = normalize3 v.
+Proof.
+  intros Hc H. pose proof (norm3_pos v H) as Hp.
+  assert (E : norm3 (scal3 c v) = c * norm3 v).
+  { unfold norm3. destruct v as [[x y] z]. cbn [scal3 dot3] in *.
+    replace (c * x * (c * x) + c * y * (c * y) + c * z * (c * z)) with ((c * c) * (x * x + y * y + z * z)) by ring.
+    rewrite sqrt_mult by nra. rewrite sqrt_square by lra. reflexivity. }
+  destruct v as [[x y] z]. unfold normalize3 at 1. cbn [scal3]. cbn [scal3] in E. rewrite E.
+  unfold normalize3. f_equal; [f_equal|]; field; split; lra.
+Qed.
+
+Lemma cross3_scal c d a b : cross3 (scal3 c a) (scal3 d b) = scal3 (c * d) (cross3 a b).
+Proof. destruct a as [[a0 a1] a2], b as [[b0 b1] b2]. cbn [cross3 scal3]. f_equal; [f_equal|]; ring. Qed.
+
+(* Lagrange: |a x b|^2 = |a|^2 |b|^2 - (a.b)^2, so a x b <> 0 forces a <> 0 and b <> 0 *)
+Lemma cross3_nz a b : 0 < dot3 (cross3 a b) (cross3 a b) -> 0 < dot3 a a /\ 0 < dot3 b b.
+Proof.
+  destruct a as [[a0 a1] a2], b as [[b0 b1] b2]. cbn [cross3 dot3]. intros H.
+  assert (L : (a1 * b2 - a2 * b1) * (a1 * b2 - a2 * b1) + (a2 * b0 - a0 * b2) * (a2 * b0 - a0 * b2)
+              + (a0 * b1 - a1 * b0) * (a0 * b1 - a1 * b0)
+            = (a0 * a0 + a1 * a1 + a2 * a2) * (b0 * b0 + b1 * b1 + b2 * b2)
+              - (a0 * b0 + a1 * b1 + a2 * b2) * (a0 * b0 + a1 * b1 + a2 * b2)) by ring.
+  rewrite L in H.
+  assert (HA : 0 <= a0 * a0 + a1 * a1 + a2 * a2) by nra. assert (HB : 0 <= b0 * b0 + b1 * b1 + b2 * b2) by nra.
+  revert H HA HB. generalize (a0 * a0 + a1 * a1 + a2 * a2) (b0 * b0 + b1 * b1 + b2 * b2) (a0 * b0 + a1 * b1 + a2 * b2).
+  intros A B D H HA HB. pose proof (Rle_0_sqr D) as HD. unfold Rsqr in HD.
+  split.
+  - destruct (Rle_lt_dec A 0) as [Z|Z]; [|exact Z]. replace A with 0 in H by lra. lra.
+  - destruct (Rle_lt_dec B 0) as [Z|Z]; [|exact Z]. replace B with 0 in H by lra. lra.
+Qed.
+
+(* Surface.normal: a unit vector, orthogonal to both velocities, the normalised cross product of the
+   (un-normalised) velocities, i.e. a positive multiple of du x dv *)
+Theorem normal3_spec (du dv : vec3) : 0 < dot3 (cross3 du dv) (cross3 du dv) ->
+  let N := normal3 du dv in
+  dot3 N N = 1 /\ dot3 N du = 0 /\ dot3 N dv = 0 /\
+  N = scal3 (/ norm3 (cross3 du dv)) (cross3 du dv) /\ 0 < / norm3 (cross3 du dv).
+Proof.
+  intros H N. destruct (cross3_nz du dv H) as [Ha Hb].
+  pose proof (norm3_pos du Ha) as Pa. pose proof (norm3_pos dv Hb) as Pb.
+  assert (E : N = normalize3 (cross3 du dv)).
+  { unfold N, normal3.
+    destruct (normalize3_spec du Ha) as (_ & -> & Ia & _). destruct (normalize3_spec dv Hb) as (_ & -> & Ib & _).
+    rewrite cross3_scal. apply normalize3_scal; [nra|exact H]. }
+  destruct (normalize3_spec (cross3 du dv) H) as (U & S & I & _).
+  rewrite E. split; [exact U|]. split; [|split; [|split; [exact S|exact I]]].
+  - rewrite S. destruct du as [[a0 a1] a2], dv as [[b0 b1] b2]. cbn [cross3 scal3 dot3]. ring.
+  - rewrite S. destruct du as [[a0 a1] a2], dv as [[b0 b1] b2]. cbn [cross3 scal3 dot3]. ring.
+Qed.
+
+(* any physical dimension: v / |v| has unit length *)
+Fixpoint dotl (u v : list R) : R :=
+  match u, v with x :: u', y :: v' => x * y + dotl u' v' | _, _ => 0 end.
+Definition normalizel (v : list R) : list R := map (fun x => x / sqrt (dotl v v)) v.
+
+Lemma dotl_div c v : c <> 0 -> dotl (map (fun x => x / c) v) (map (fun x => x / c) v) = dotl v v / (c * c).
+Proof. intros Hc. induction v as [|x v IH]; cbn [map dotl]; [field; exact Hc|]. rewrite IH. field. exact Hc. Qed.
+
+Theorem normalizel_unit v : 0 < dotl v v -> dotl (normalizel v) (normalizel v) = 1.
+Proof.
+  intros H. unfold normalizel. assert (0 < sqrt (dotl v v)) by now apply sqrt_lt_R0.
+  rewrite dotl_div by lra. rewrite sqrt_sqrt by lra. field. lra.
+Qed.
+
+(* ------------------------------------------------------------------------------------------------ *)
+(* 4. splines                                                                                       *)
+(* ------------------------------------------------------------------------------------------------ *)
+
+(* r-th derivative of one homogeneous component of a spline curve: sum_i c_i dB^(r)_{i,q} *)
+Definition spl (k : nat -> R) (q cnt : nat) (c : nat -> R) (r : nat) (s : R) : R :=
+  sumf (fun i => c i * dB true k r q i s) 0 cnt.
+
+Lemma spl_is_derive k (Hk : sorted k) m q cnt c r s : k m < s < k (S m) ->
+  is_derive (spl k q cnt c r) s (spl k q cnt c (S r) s).
+Proof.
+  intros Hs. unfold spl.
+  apply (is_derive_sumf (fun i y => c i * dB true k r q i y) (fun i y => c i * dB true k (S r) q i y)).
+  intros i. apply is_derive_scal. exact (dB_is_derivative k Hk m s Hs r q i).
+Qed.
+
+(* MAIN (rational spline curves): inside an open knot span, for every order d <= 3, the kernel of order d applied
+   to the dB sums is the d-th derivative of  (sum_i c_i B_i) / (sum_i w_i B_i) *)
+Theorem rational_curve_derivative_is_derivative (k : nat -> R) (Hk : sorted k) (m q cnt : nat) (c w : nat -> R)
+  (d : nat) (t : R) :
+  (d <= 3)%nat -> k m < t < k (S m) -> sumf (fun i => w i * B true k q i t) 0 cnt <> 0 ->
+  is_derive_n (fun s => sumf (fun i => c i * B true k q i s) 0 cnt / sumf (fun i => w i * B true k q i s) 0 cnt) d t
+    (Qc (fun r => spl k q cnt c r t) (fun r => spl k q cnt w r t) d).
+Proof.
+  intros Hd Ht Hz.
+  exact (curve_kernels_are_derivatives (k m) (k (S m)) (spl k q cnt c) (spl k q cnt w)
+           (fun r s _ Hs => spl_is_derive k Hk m q cnt c r s Hs)
+           (fun r s _ Hs => spl_is_derive k Hk m q cnt w r s Hs) d t Hd Ht Hz).
+Qed.
+
+Corollary rational_curve_d1 k (Hk : sorted k) m q cnt c w t :
+  k m < t < k (S m) -> sumf (fun i => w i * B true k q i t) 0 cnt <> 0 ->
+  is_derive (fun s => sumf (fun i => c i * B true k q i s) 0 cnt / sumf (fun i => w i * B true k q i s) 0 cnt) t
+    (@quot1 R NumR (sumf (fun i => c i * dB true k 1 q i t) 0 cnt) (sumf (fun i => c i * B true k q i t) 0 cnt)
+                   (sumf (fun i => w i * dB true k 1 q i t) 0 cnt) (sumf (fun i => w i * B true k q i t) 0 cnt)).
+Proof. intros Ht Hz. exact (rational_curve_derivative_is_derivative k Hk m q cnt c w 1 t ltac:(lia) Ht Hz). Qed.
+
+Corollary rational_curve_d2 k (Hk : sorted k) m q cnt c w t :
+  k m < t < k (S m) -> sumf (fun i => w i * B true k q i t) 0 cnt <> 0 ->
+  is_derive_n (fun s => sumf (fun i => c i * B true k q i s) 0 cnt / sumf (fun i => w i * B true k q i s) 0 cnt) 2 t
+    (@curve_d2 R NumR (fun r => sumf (fun i => c i * dB true k r q i t) 0 cnt)
+                      (fun r => sumf (fun i => w i * dB true k r q i t) 0 cnt)).
+Proof. intros Ht Hz. exact (rational_curve_derivative_is_derivative k Hk m q cnt c w 2 t ltac:(lia) Ht Hz). Qed.
+
+Corollary rational_curve_d3 k (Hk : sorted k) m q cnt c w t :
+  k m < t < k (S m) -> sumf (fun i => w i * B true k q i t) 0 cnt <> 0 ->
+  is_derive_n (fun s => sumf (fun i => c i * B true k q i s) 0 cnt / sumf (fun i => w i * B true k q i s) 0 cnt) 3 t
+    (@curve_d3 R NumR (fun r => sumf (fun i => c i * dB true k r q i t) 0 cnt)
+                      (fun r => sumf (fun i => w i * dB true k r q i t) 0 cnt)).
+Proof. intros Ht Hz. exact (rational_curve_derivative_is_derivative k Hk m q cnt c w 3 t ltac:(lia) Ht Hz). Qed.
+
+(* tensor-product surfaces: sum_a sum_b c_ab dB^(i)_a(u) dB^(j)_b(v) *)
+Definition spl2 (k1 k2 : nat -> R) (q1 q2 c1 c2 : nat) (c : nat -> nat -> R) (i j : nat) (u v : R) : R :=
+  sumf (fun a => sumf (fun b => c a b * dB true k1 i q1 a u * dB true k2 j q2 b v) 0 c2) 0 c1.
+
+Lemma spl2_is_derive_u k1 k2 (H1 : sorted k1) m1 q1 q2 c1 c2 c i j u v : k1 m1 < u < k1 (S m1) ->
+  is_derive (fun x => spl2 k1 k2 q1 q2 c1 c2 c i j x v) u (spl2 k1 k2 q1 q2 c1 c2 c (S i) j u v).
+Proof.
+  intros Hu. unfold spl2.
+  apply (is_derive_sumf (fun a x => sumf (fun b => c a b * dB true k1 i q1 a x * dB true k2 j q2 b v) 0 c2)
+                        (fun a x => sumf (fun b => c a b * dB true k1 (S i) q1 a x * dB true k2 j q2 b v) 0 c2)).
+  intros a.
+  apply (is_derive_sumf (fun b x => c a b * dB true k1 i q1 a x * dB true k2 j q2 b v)
+                        (fun b x => c a b * dB true k1 (S i) q1 a x * dB true k2 j q2 b v)).
+  intros b. pose proof (dB_is_derivative k1 H1 m1 u Hu i q1 a) as D.
+  auto_derive; [eexists; exact D|]. derive_vals u. ring.
+Qed.
+
+Lemma spl2_is_derive_v k1 k2 (H2 : sorted k2) m2 q1 q2 c1 c2 c i j u v : k2 m2 < v < k2 (S m2) ->
+  is_derive (fun y => spl2 k1 k2 q1 q2 c1 c2 c i j u y) v (spl2 k1 k2 q1 q2 c1 c2 c i (S j) u v).
+Proof.
+  intros Hv. unfold spl2.
+  apply (is_derive_sumf (fun a y => sumf (fun b => c a b * dB true k1 i q1 a u * dB true k2 j q2 b y) 0 c2)
+                        (fun a y => sumf (fun b => c a b * dB true k1 i q1 a u * dB true k2 (S j) q2 b y) 0 c2)).
+  intros a.
+  apply (is_derive_sumf (fun b y => c a b * dB true k1 i q1 a u * dB true k2 j q2 b y)
+                        (fun b y => c a b * dB true k1 i q1 a u * dB true k2 (S j) q2 b y)).
+  intros b. pose proof (dB_is_derivative k2 H2 m2 v Hv j q2 b) as D.
+  auto_derive; [eexists; exact D|]. derive_vals v. ring.
+Qed.
+
+(* MAIN (rational spline surfaces): inside an open knot rectangle, for all ten multi-indices (i,j), i + j <= 3,
+   the API value computed from the dB tensor sums is the mixed partial derivative of the rational map *)
+Theorem rational_surface_derivative_is_partial (k1 k2 : nat -> R) (H1 : sorted k1) (H2 : sorted k2)
+  (m1 m2 q1 q2 c1 c2 : nat) (c w : nat -> nat -> R) (i j : nat) (u v : R) :
+  (i + j <= 3)%nat -> k1 m1 < u < k1 (S m1) -> k2 m2 < v < k2 (S m2) ->
+  spl2 k1 k2 q1 q2 c1 c2 w 0 0 u v <> 0 ->
+  is_derive_n (fun x => Derive_n (fun y => spl2 k1 k2 q1 q2 c1 c2 c 0 0 x y / spl2 k1 k2 q1 q2 c1 c2 w 0 0 x y) j v) i u
+    (Qs (fun a b => spl2 k1 k2 q1 q2 c1 c2 c a b u v) (fun a b => spl2 k1 k2 q1 q2 c1 c2 w a b u v) i j).
+Proof.
+  intros Hij Hu Hv Hz.
+  exact (surface_kernels_are_partials (k1 m1) (k1 (S m1)) (k2 m2) (k2 (S m2))
+           (spl2 k1 k2 q1 q2 c1 c2 c) (spl2 k1 k2 q1 q2 c1 c2 w)
+           (fun a b x y _ HR => spl2_is_derive_u k1 k2 H1 m1 q1 q2 c1 c2 c a b x y (proj1 HR))
+           (fun a b x y _ HR => spl2_is_derive_v k1 k2 H2 m2 q1 q2 c1 c2 c a b x y (proj2 HR))
+           (fun a b x y _ HR => spl2_is_derive_u k1 k2 H1 m1 q1 q2 c1 c2 w a b x y (proj1 HR))
+           (fun a b x y _ HR => spl2_is_derive_v k1 k2 H2 m2 q1 q2 c1 c2 w a b x y (proj2 HR))
+           i j u v Hij (conj Hu Hv) Hz).
+Qed.
+
+(* ------------------------------------------------------------------------------------------------ *)
+(* 5. tangent / normal of rational objects are the normalised TRUE derivatives                      *)
+(* ------------------------------------------------------------------------------------------------ *)
+
+(* Curve.tangent of a rational curve in R^3: derivative(t, d=1) goes through quot1 componentwise, then v / |v| *)
+Theorem rational_tangent_is_normalised_derivative (x y z W : R -> R) (t x' y' z' W' : R) :
+  is_derive x t x' -> is_derive y t y' -> is_derive z t z' -> is_derive W t W' -> W t <> 0 ->
+  normalize3 (@quot1 R NumR x' (x t) W' (W t), @quot1 R NumR y' (y t) W' (W t), @quot1 R NumR z' (z t) W' (W t))
+  = normalize3 (Derive (fun s => x s / W s) t, Derive (fun s => y s / W s) t, Derive (fun s => z s / W s) t).
+Proof.
+  intros Hx Hy Hz HW Hnz.
+  f_equal. f_equal; [f_equal|]; symmetry; apply is_derive_unique; apply quot1_is_derive; assumption.
+Qed.
+
+(* Surface.normal of a rational surface in R^3 at (u,v): both first-order partials through quot1, then
+   normalise, cross, normalise *)
+Theorem rational_normal_is_normalised_cross (x y z W : R -> R -> R) (u v xu yu zu Wu xv yv zv Wv : R) :
+  is_derive (fun s => x s v) u xu -> is_derive (fun s => y s v) u yu -> is_derive (fun s => z s v) u zu ->
+  is_derive (fun s => W s v) u Wu ->
+  is_derive (fun s => x u s) v xv -> is_derive (fun s => y u s) v yv -> is_derive (fun s => z u s) v zv ->
+  is_derive (fun s => W u s) v Wv -> W u v <> 0 ->
+  let Du := (Derive (fun s => x s v / W s v) u, Derive (fun s => y s v / W s v) u, Derive (fun s => z s v / W s v) u) in
+  let Dv := (Derive (fun s => x u s / W u s) v, Derive (fun s => y u s / W u s) v, Derive (fun s => z u s / W u s) v) in
+  normal3 (@quot1 R NumR xu (x u v) Wu (W u v), @quot1 R NumR yu (y u v) Wu (W u v), @quot1 R NumR zu (z u v) Wu (W u v))
+          (@quot1 R NumR xv (x u v) Wv (W u v), @quot1 R NumR yv (y u v) Wv (W u v), @quot1 R NumR zv (z u v) Wv (W u v))
+  = normal3 Du Dv.
+Proof.
+  intros Hxu Hyu Hzu HWu Hxv Hyv Hzv HWv Hnz Du Dv. unfold Du, Dv.
+  f_equal; (f_equal; [f_equal|]); symmetry; apply is_derive_unique;
+    first [exact (quot1_is_derive (fun s => x s v) (fun s => W s v) u xu Wu Hxu HWu Hnz)
+          |exact (quot1_is_derive (fun s => y s v) (fun s => W s v) u yu Wu Hyu HWu Hnz)
+          |exact (quot1_is_derive (fun s => z s v) (fun s => W s v) u zu Wu Hzu HWu Hnz)
+          |exact (quot1_is_derive (fun s => x u s) (fun s => W u s) v xv Wv Hxv HWv Hnz)
+          |exact (quot1_is_derive (fun s => y u s) (fun s => W u s) v yv Wv Hyv HWv Hnz)
+          |exact (quot1_is_derive (fun s => z u s) (fun s => W u s) v zv Wv Hzv HWv Hnz)].
+Qed.
+
+(* ------------------------------------------------------------------------------------------------ *)
+(* 6. the hypotheses are satisfiable: concrete instances                                            *)
+(* ------------------------------------------------------------------------------------------------ *)
+
+(* n s = s, W s = 1 + s^2 and their derivative functions *)
+Definition ex_n (r : nat) (s : R) : R := match r with 0%nat => s | 1%nat => 1 | _ => 0 end.
+Definition ex_W (r : nat) (s : R) : R := match r with 0%nat => 1 + s * s | 1%nat => 2 * s | 2%nat => 2 | _ => 0 end.
+
+Example curve_example_all_orders t d : (d <= 3)%nat ->
+  is_derive_n (fun s => s / (1 + s * s)) d t (Qc (fun r => ex_n r t) (fun r => ex_W r t) d).
+Proof.
+  intros Hd.
+  apply (curve_kernels_are_derivatives (t - 1) (t + 1) ex_n ex_W).
+  - intros r s Hr _. destruct r as [|[|[|r]]]; [| | |lia]; unfold ex_n; (auto_derive; [exact I|ring]).
+  - intros r s Hr _. destruct r as [|[|[|r]]]; [| | |lia]; unfold ex_W; (auto_derive; [exact I|ring]).
+  - exact Hd.
+  - lra.
+  - cbn [ex_W]. nra.
+Qed.
+
+(* s/(1+s^2) = s - s^3 + ... : the third derivative at 0 is -6, through the regenerated kernel curve_d3 *)
+Example curve_example_d3 : is_derive_n (fun s => s / (1 + s * s)) 3 0 (-6).
+Proof.
+  replace (-6) with (Qc (fun r => ex_n r 0) (fun r => ex_W r 0) 3).
+  - apply curve_example_all_orders. lia.
+  - unfold Qc, curve_d3, ex_n, ex_W; cbn [nadd nsub nmul ndiv nofZ n0 NumR]. field.
+Qed.
+
+(* n(u,v) = u v, W(u,v) = 1 + u^2 + v^2 *)
+Definition ex_n2 (i j : nat) (u v : R) : R :=
+  match i, j with 0%nat, 0%nat => u * v | 1%nat, 0%nat => v | 0%nat, 1%nat => u | 1%nat, 1%nat => 1 | _, _ => 0 end.
+Definition ex_W2 (i j : nat) (u v : R) : R :=
+  match i, j with 0%nat, 0%nat => 1 + u * u + v * v | 1%nat, 0%nat => 2 * u | 0%nat, 1%nat => 2 * v
+                | 2%nat, 0%nat => 2 | 0%nat, 2%nat => 2 | _, _ => 0 end.
+
+Example surface_example_all_orders u v i j : (i + j <= 3)%nat ->
+  is_derive_n (fun x => Derive_n (fun y => x * y / (1 + x * x + y * y)) j v) i u
+    (Qs (fun a b => ex_n2 a b u v) (fun a b => ex_W2 a b u v) i j).
+Proof.
+  intros Hij.
+  apply (surface_kernels_are_partials (u - 1) (u + 1) (v - 1) (v + 1) ex_n2 ex_W2).
+  - intros a b x y Hab _. destruct a as [|[|[|a]]]; destruct b as [|[|[|b]]]; try lia; unfold ex_n2; (auto_derive; [exact I|ring]).
+  - intros a b x y Hab _. destruct a as [|[|[|a]]]; destruct b as [|[|[|b]]]; try lia; unfold ex_n2; (auto_derive; [exact I|ring]).
+  - intros a b x y Hab _. destruct a as [|[|[|a]]]; destruct b as [|[|[|b]]]; try lia; unfold ex_W2; (auto_derive; [exact I|ring]).
+  - intros a b x y Hab _. destruct a as [|[|[|a]]]; destruct b as [|[|[|b]]]; try lia; unfold ex_W2; (auto_derive; [exact I|ring]).
+  - exact Hij.
+  - lra.
+  - cbn [ex_W2]. nra.
+Qed.
+
+(* the mixed second partial of u v / (1 + u^2 + v^2) at the origin is 1, through surf_d11 *)
+Example surface_example_d11 :
+  is_derive (fun x => Derive (fun y => x * y / (1 + x * x + y * y)) 0) 0 1.
+Proof.
+  pose proof (surface_example_all_orders 0 0 1 1 ltac:(lia)) as H.
+  replace (Qs (fun a b => ex_n2 a b 0 0) (fun a b => ex_W2 a b 0 0) 1 1) with 1 in H; [exact H|].
+  unfold Qs, surf_d11, ex_n2, ex_W2; cbn [nadd nsub nmul ndiv nofZ n0 NumR]. field.
+Qed.
+
+(* a rational quadratic spline curve on the uniform knots 0,1,2,...: all weights 1 (partition of unity), span [2,3) *)
+Example spline_example (c : nat -> R) (d : nat) : (d <= 3)%nat ->
+  is_derive_n (fun s => sumf (fun i => c i * B true INR 2 i s) 0 3 / sumf (fun i => 1 * B true INR 2 i s) 0 3) d (5/2)
+    (Qc (fun r => spl INR 2 3 c r (5/2)) (fun r => spl INR 2 3 (fun _ => 1) r (5/2)) d).
+Proof.
+  intros Hd.
+  assert (Hk : sorted INR) by (intros i j Hij; apply le_INR; exact Hij).
+  apply (rational_curve_derivative_is_derivative INR Hk 2 2 3 c (fun _ => 1) d (5/2) Hd).
+  - simpl INR. lra.
+  - rewrite (sumf_ext _ (fun i => B true INR 2 i (5/2))) by (intros; ring).
+    pose proof (partition_unity true INR Hk 2 2 (5/2) ltac:(lia)) as P. cbn [Nat.sub] in P.
+    rewrite P; [lra|]. unfold in_span. simpl INR. lra.
+Qed.
+
